@@ -31,8 +31,28 @@ def decode(p):
         return p
 
 
+def post(ctx, cases, gores, model):
+    """evidence only: on how many cases the lexer MODEL reproduces the real lexer's token list (the end-to-end theorem
+    is about parse = parseToks o lex; the lexer tie itself is C18's correspondence)"""
+    agree = differ = skipped = 0
+    ex = []
+    for i, (_, attrs) in model.items():
+        la = attrs.get("la")
+        if la == "1":
+            agree += 1
+        elif la == "0":
+            differ += 1
+            if len(ex) < 5:
+                ex.append(decode(cases[i]))
+        else:
+            skipped += 1
+    ctx.coverage["lexer_model_equals_real_token_list"] = {"agree": agree, "differ": differ, "not_evaluated": skipped,
+                                                          "examples_differ": ex}
+
+
 SPEC = dict(
     extract=extract,
+    post=post,
     lean_modules=["Ecal.Props.C07"],
     shards=16,
     rule=("cases = source texts: the inputs of the repaired defects and ~100 directed corner cases, every byte string of "
@@ -53,21 +73,21 @@ SPEC = dict(
           "Non-trivial = the token list has at least 3 tokens."),
     exhaustive="all byte strings <=3 over 20 symbols; all token-text sequences <=3 (quick) / <=4 (thorough) over 40 tokens",
     trusted_base=[
-        "the token list handed to the model parser is produced by the real lexer (parser.LexToList); the lexer itself is not modelled here (C18/C08)",
+        "the token list handed to the model parser is produced by the real lexer (parser.LexToList); the lexer MODEL (of parse_end_to_end) is tied to lexer.go by C18's correspondence; "
+        "C07's run additionally records on how many of its cases the lexer model reproduces the real token list (coverage.lexer_model_equals_real_token_list; error message texts ignored)",
         "facts extracted by go/ast from the tree under test (harness C07 -tool gen -> lean/Ecal/Gen/C07.lean): token ids, astNodeMap, block-brace entry, go statements / close / defer drain skeleton",
         "the 3-slot look-ahead ring is not modelled in the parser model (argued invisible, notes in Model/Parser.lean) and over-approximated in the channel model",
         "goroutine accounting AT RETURN TIME: directly after parser.Parse returns the goroutine dump is searched for frames of package parser; only a lexer goroutine past its close() (single frame (*lexer).run) is given time to end; long-tail inputs (10^5 tokens after a first-token error) keep anything asynchronous busy at that moment",
     ],
     assumptions=[
-        "LEXER TERMINATION is not proved here: that the real lexer terminates on every input and that its token stream is finite and "
-        "ends with close (EOF or Error token last) is an assumption of the parser model (which starts from the token list) and of the "
-        "channel model (init n); the lexer model's own theorem (lexer_always_closes, owner: C18) is to be imported when merged; until "
-        "then the lexer half of 'terminates for every input' is HANG detection on the generated inputs only",
         "RECURSION DEPTH: the model parser recurses on an unbounded fuel; the real parser recurses on the Go stack (default limit 1 GB): "
         "measured by the reviewer, parser.Parse dies with an unrecoverable `fatal error: stack overflow` at about 5M nested `(` (10 MB "
         "of input), 3M `[`, 2M `if a {`; 1M nested parentheses parse in 3.4 s. The run contains one 10^5-deep nesting case; inputs nested "
         "deeper than ~10^6 are outside what is checked (proposed known finding deep-nesting-stack-overflow; no directed kf case: a 10 MB "
         "input with its token list does not fit the budget)",
+        "SIZE of successful inputs: the longest generated successful program has 2*10^4 (quick) / 4*10^4 (thorough) statements "
+        "(~10^5 tokens); the model driver is quadratic in the number of children of one node (Node.add = children ++ [c], kept because "
+        "Printer/Eval/C04/C06 proofs use this list), so 10^6-statement programs are outside what is run",
         "Go channel semantics (`for range ch` ends when the channel is observed closed; an unbuffered send completes with a receive) as "
         "encoded in Model/TokenChannel.lean",
         "the consumer census `walkable` (Model/ParserWalk.lean) is a hand transcription of the unguarded dereferences of Validate/Eval/"
